@@ -914,6 +914,9 @@ func (e *Exec) lockAcquired(st *State, l Loc) {}
 
 // isLockChan: the channel value was loaded from a field declared `//@ lock-chan <field>`.
 func (e *Exec) isLockChan(v ssa.Value) bool {
+	if _, ok := v.(*ssa.MakeChan); ok { // a 1-slot channel made in this function (see MakeChan)
+		return true
+	}
 	ld, ok := v.(*ssa.UnOp)
 	if !ok {
 		return false
